@@ -147,7 +147,11 @@ PROVED = {
         "A conditional class attribute (class?) "
         "and Go's execution of the emitted statements are covered by the denotation runs only: partial.",
  "C02": "besides the escaping function: the exact code emitted for `= expr`/`#{}` (wrapped in goht.EscapeString once in an escaping context, not at all "
-        "in an unescaped one) and for dynamic attribute values (always escaped), from any writer state.",
+        "in an unescaped one) and for dynamic attribute values (always escaped), from any writer state; and the property's own notion made formal: over a "
+        "state-machine reading of document structure (tag-level states of the WHATWG tokenizer, events = tag starts/ends, attribute starts, name bytes), an "
+        "escaped value in character data or in a quoted attribute value produces no event and leaves the state unchanged, so the structure of the whole "
+        "document is the same for ALL values at any number of such sites (C02_many_values); the unquoted-value and name states are shown unsafe by witness "
+        "(the latter is F38). That tokenizer is a specification, validated against Python's html.parser on the rendered documents (counted, never an alarm).",
  "C03": "temporaries are never reused inside a template (itoa injective, counter never decreases over any template-body tree), the import list has no "
         "duplicates, a string position is the argument of EscapeString/CaptureErrors; Go type checking itself is run, not modelled: partial.",
  "C04": "strconv.Unquote inverts strconv.Quote on EVERY byte string (UTF-8 codec inverse lemmas, hex escapes), chunks of a literal compose, a raw quote or "
